@@ -26,6 +26,9 @@ GuardsOf(e) == CASE Skipped(e)           -> <<>>
                  [] e.ev = "ValBatches"  -> ValBatchesGuards(e)
                  [] e.ev = "TrainStep"   -> TrainStepGuards(e)
                  [] e.ev = "Return"      -> ReturnGuards(e)
+                 [] e.ev = "EvalBatches" -> EvalBatchesGuards(e)
+                 [] e.ev = "EvalStep"    -> EvalStepGuards(e)
+                 [] e.ev = "EvalReturn"  -> EvalReturnGuards(e)
                  [] OTHER -> <<<<"event has no counterpart in the specification (run cut off: training did not stop)", FALSE>>>>
 
 Consume == /\ tid > 0 /\ l <= Len(Traces[tid].events)
@@ -36,6 +39,9 @@ Consume == /\ tid > 0 /\ l <= Len(Traces[tid].events)
                   [] e.ev = "ValBatches"  -> ValBatches(e)
                   [] e.ev = "TrainStep"   -> TrainStep(e)
                   [] e.ev = "Return"      -> Return(e)
+                  [] e.ev = "EvalBatches" -> EvalBatches(e)
+                  [] e.ev = "EvalStep"    -> EvalStep(e)
+                  [] e.ev = "EvalReturn"  -> EvalReturn(e)
                   [] OTHER -> FALSE
            /\ l' = l + 1 /\ tid' = tid
 Next == Pick \/ Consume
@@ -48,5 +54,5 @@ Verdict ==
          AllTrue(gs) \/ PrintT(<<"REJECT", ToJson([tid |-> Traces[tid].tid, l |-> l, clause |-> FirstFalse(gs)])>>)
 
 (* the design invariant must hold along every accepted prefix as well *)
-Inv == (tid > 0 /\ Focus = "all") => LoopInv
+Inv == (tid > 0 /\ Focus = "all") => (LoopInv /\ EvalInv)
 =============================================================================
